@@ -2,12 +2,12 @@
 (***************************************************************************)
 (* Conformance of the real high-level encoders with the encoder models     *)
 (* (spec -> code and code -> spec at once): harness/cmd/encdump enumerates  *)
-(* the state space of MC_PDFText / MC_AztecHL / MC_Code128 - every string   *)
+(* the state space of MC_PDFText / MC_AztecHL / MC_Code128 / MC_DM - every string   *)
 (* up to a length bound over the model's representative alphabet - calls   *)
 (* the real pdf417.highlevelEncode / aztec.highlevelEncode /               *)
 (* code128.getCodeIndexList through the verif accessors and records what   *)
 (* they return.  Each recorded output is compared with what the encoder    *)
-(* model (PDFTextEnc, AztecHLEnc, Code128Enc) emits for the same string:   *)
+(* model (PDFTextEnc, AztecHLEnc, Code128Enc, DMEnc) emits for the same string:   *)
 (*   equal     -> the code took exactly the model's transition sequence;   *)
 (*                the model's RoundTrip invariant (checked by TLC for the  *)
 (*                same state space) covers this execution;                 *)
@@ -24,6 +24,7 @@ EXTENDS Integers, Sequences, Json, TLC
 P == INSTANCE PDFTextEnc WITH PadFix <- TRUE
 A == INSTANCE AztecHLEnc WITH BSFix <- TRUE
 C == INSTANCE Code128Enc
+D == INSTANCE DMEnc
 
 Trace == ndJsonDeserialize("trace.ndjson")
 N == Len(Trace)
@@ -50,6 +51,11 @@ Tag(e) ==
             ELSE IF ~rep THEN "hl-wrong"                         \* accepted an unencodable rune
             ELSE IF e.out = m THEN ""
             ELSE LET d == C!Decode(e.out) IN IF e.out # <<>> /\ d.ok /\ d.shift = "" /\ d.out = e.content THEN "drift" ELSE "hl-wrong"
+    [] e.sym = "dm" ->       \* out = addPadding(encodeText(content), len + pad)
+         LET cw == D!EncText(e.content, 1) IN
+         IF ~e.ok THEN "hl-wrong"
+         ELSE IF e.out = D!AddPadding(cw, Len(cw) + e.pad) THEN ""
+         ELSE LET a == D!Ascii(e.out) IN IF a.ok /\ ~a.shift /\ a.out = e.content /\ (a.pad <=> e.pad > 0) THEN "drift" ELSE "hl-wrong"
     [] OTHER -> "unknown-event"
 
 Step ==
